@@ -221,6 +221,19 @@ theorem iup_optimize_sound (t : Tol) (ds cs : List Pt) (enc : List Bool)
   · exact (withinTol_iff_rat t (getP ds k) _ _ hpos.1 hpos.2 ht).mp (hs k hk hopt)
 
 open FontVerif.Iup in
+/-- **`iup_delta_optimize` is sound for the whole glyph.**  If the optimiser returns `Ok(l)`, then
+for every slice it cuts the glyph into (between consecutive sorted contour ends; each of the four
+phantom points is its own slice) the flags in `l` are a kept-set for which the specification's
+inference reproduces every omitted delta of that slice within the tolerance, and the values in `l`
+are the slice's deltas (`ot_round`ed).  `GlyphSound` (Lemmas/Iup.lean) spells this out slice by
+slice; `Sound` is the per-contour statement of `iup_optimize_sound_int`. -/
+theorem iup_delta_optimize_sound (t : Tol) (ds cs : List Pt) (ends : List Nat)
+    (l : List (Int × Int × Bool)) (h : deltaOptimize t ds cs ends = .ok l) :
+    cs.length = ds.length ∧ 4 ≤ ds.length ∧
+    GlyphSound t ds cs (sortNat ends ++ [cs.length - 4, cs.length - 3, cs.length - 2, cs.length - 1]) 0 l :=
+  deltaOptimize_sound t ds cs ends l h
+
+open FontVerif.Iup in
 /-- the same statement in the integer form the model computes (no division) -/
 theorem iup_optimize_sound_int (t : Tol) (ds cs : List Pt) (enc : List Bool)
     (hlen : cs.length = ds.length) (h : contourEncode t ds cs = some enc) :
@@ -264,6 +277,59 @@ theorem reader_infer_eq_writer_segment (in1 d1 in2 d2 c : Int) :
     Int.eq_of_mul_eq_mul_right (by omega) h1
   exact Prod.ext this h2
 
+open FontVerif.Iup in
+/-- **The reader's loops pick the specification's references** (skrifa `interpolate_deltas`: first
+explicit point, forward walk, single-delta `shift`, wrap-around to the head and tail of the
+contour).  For a contour occupying points `0 ..= n-1` and any set `has` of explicit deltas: no
+`Jiggler` call is made when there is no explicit delta; otherwise every point without an explicit
+delta is written by some call, and EVERY call that writes a point `k` uses as references exactly the
+nearest explicit points before and after `k` in cyclic order. -/
+theorem reader_loops_pick_spec_references (has : List Bool) (n np : Nat) (hn : 0 < n) (hnp : n ≤ np) :
+    ∃ calls p', readerContourCalls has np 0 (n - 1) = some (calls, p') ∧
+      ((∀ j, j < n → has.getD j false = false) → calls = []) ∧
+      (∀ c ∈ calls, ∀ k, k < n → covers c k = true →
+        has.getD k false = false ∧ prevReq has n k = some c.r1 ∧ nextReq has n k = some c.r2) ∧
+      (∀ k, k < n → has.getD k false = false → (∃ j, j < n ∧ has.getD j false = true) →
+        ∃ c ∈ calls, covers c k = true) := by
+  obtain ⟨calls, p', e, hA, hB, hC⟩ := readerContourCalls_spec has n np hn hnp
+  exact ⟨calls, p', e, hA, fun c hc k hk hcov => by
+    obtain ⟨g1, g2, g3, _⟩ := hB c hc k hk hcov
+    exact ⟨g1, g2, g3⟩, hC⟩
+
+open FontVerif.Iup in
+/-- **reader = specification** for one contour: the loop-faithful reader model with exact
+per-point arithmetic assigns every point exactly the specification's inferred delta.  (The real
+reader's 16.16 arithmetic is the separate model `readerInterpolate`, tied bit-exactly to skrifa by
+the harness; its deviation from the exact value is bounded by an oracle, not by a theorem.) -/
+theorem reader_contour_eq_spec (cs ds : List Pt) (has : List Bool) (np : Nat) (hn : 0 < ds.length)
+    (hnp : ds.length ≤ np) :
+    ∃ calls p', readerContourCalls has np 0 (ds.length - 1) = some (calls, p') ∧
+      ∀ k, k < ds.length → readerExactAt cs ds has calls k = inferSpec cs ds has k := by
+  obtain ⟨calls, p', e, _⟩ := readerContourCalls_spec has ds.length np hn hnp
+  exact ⟨calls, p', e, fun k hk => readerExact_eq_spec cs ds has np hn hnp calls p' e k hk⟩
+
+open FontVerif.Iup in
+/-- **writer → reader round trip, one contour.**  Whatever deltas `iup_contour_optimize` keeps, the
+reader (loop-faithful model, exact arithmetic) gives back every kept delta exactly and every
+dropped delta within the tolerance. -/
+theorem iup_writer_reader_roundtrip (t : Tol) (ds cs : List Pt) (enc : List Bool) (np : Nat)
+    (hlen : cs.length = ds.length) (ht : 0 < t.d) (hn : 0 < ds.length) (hnp : ds.length ≤ np)
+    (h : contourEncode t ds cs = some enc) :
+    ∃ calls p', readerContourCalls enc np 0 (ds.length - 1) = some (calls, p') ∧
+      ∀ k, k < ds.length →
+        let r := readerExactAt cs ds enc calls k
+        0 < r.1.2 ∧ 0 < r.2.2 ∧
+        (enc.getD k false = true →
+          ((r.1.1 : ℚ) / r.1.2 = (getP ds k).1 ∧ (r.2.1 : ℚ) / r.2.2 = (getP ds k).2)) ∧
+        (enc.getD k false = false →
+          (((getP ds k).1 : ℚ) - r.1.1 / r.1.2) ^ 2 + (((getP ds k).2 : ℚ) - r.2.1 / r.2.2) ^ 2
+            ≤ ((t.n : ℚ) / t.d) ^ 2) := by
+  obtain ⟨calls, p', e, heq⟩ := reader_contour_eq_spec cs ds enc np hn hnp
+  refine ⟨calls, p', e, fun k hk => ?_⟩
+  have := (iup_optimize_sound t ds cs enc hlen ht h).2 k hk
+  rw [heq k hk]
+  exact this
+
 -- non-vacuity: the optimiser does drop deltas (rotated branch, then doubled branch)
 open FontVerif.Iup in
 example : contourEncode ⟨1, 2⟩ [(0,0),(1,0),(2,0),(0,0)] [(0,0),(10,0),(20,0),(20,10)]
@@ -272,6 +338,10 @@ open FontVerif.Iup in
 example : contourEncode ⟨1, 2⟩ [(0,0),(1,1),(2,2),(3,3),(4,4),(5,5),(6,6),(7,7)]
     [(0,0),(10,10),(20,20),(30,30),(40,40),(50,50),(60,60),(70,70)]
     = some [true, false, false, false, false, false, false, true] := by decide +kernel
+-- the reader's calls for that kept set: interpolate point 1 between 0 and 2, nothing to wrap
+open FontVerif.Iup in
+example : readerContourCalls [true, false, true, true] 4 0 3
+    = some ([⟨1, 1, 0, 2, false⟩, ⟨3, 2, 2, 3, false⟩, ⟨4, 3, 3, 0, false⟩], 4) := by decide
 -- and inference really interpolates: point 1 of the first example gets 1/1 from its neighbours
 open FontVerif.Iup in
 example : inferSpec [(0,0),(10,0),(20,0),(20,10)] [(0,0),(1,0),(2,0),(0,0)] [true, false, true, true] 1
